@@ -23,6 +23,7 @@ func init() {
 	engine.Register("N-HEAD", ruleNHead)
 	engine.Register("U-DECODE", ruleUDecode)
 	engine.Register("R-ITER-STABLE", ruleIterStable)
+	engine.Register("N-VGSUM", ruleNVgSum)
 }
 
 // nodeSetters: the per-node setters of the basic node that store their argument into a field
@@ -1206,4 +1207,271 @@ func valueLabel(v ssa.Value) string {
 		return "the list parameter " + x.Name()
 	}
 	return "the list " + v.Name()
+}
+
+// ruleNVgSum: N-VGSUM — the "value group" flag of a chain's head is what evaluation consults to
+// decide whether a single array result is the argument list of an aggregate function (and what
+// the parser consults to reject value groups in comparisons). It is only meaningful after it
+// has been summarised over the chain. Every chain head that is stored into a field whose flag
+// is consulted later must have been summarised when it is stored.
+func ruleNVgSum(c *engine.Context) *report.Rule {
+	r := report.NewRule("N-VGSUM", "a chain head whose value-group flag is consulted later is summarised over its chain before it is attached", 1)
+	p := c.P
+	bst, ok := p.Roles.BasicNode.Underlying().(*types.Struct)
+	if !ok {
+		r.InfraFail("anchor unresolved: basic node struct")
+		return r
+	}
+	// zero-argument flag setter of the basic node: stores a constant into a bool field
+	setName, flagField := "", -1
+	for _, fn := range p.Funcs {
+		if fn.Signature.Recv() == nil || fn.Blocks == nil || len(fn.Params) != 1 || fn.Signature.Results().Len() != 0 {
+			continue
+		}
+		pt, ok := fn.Signature.Recv().Type().(*types.Pointer)
+		if !ok || !types.Identical(pt.Elem(), p.Roles.BasicNode) {
+			continue
+		}
+		for _, b := range fn.Blocks {
+			for _, ins := range b.Instrs {
+				if st, ok := ins.(*ssa.Store); ok {
+					if fa, ok := st.Addr.(*ssa.FieldAddr); ok && fa.X == ssa.Value(fn.Params[0]) && isBasicKind(bst.Field(fa.Field).Type(), types.Bool) {
+						if _, isC := st.Val.(*ssa.Const); isC {
+							setName, flagField = fn.Name(), fa.Field
+						}
+					}
+				}
+			}
+		}
+	}
+	getName := ""
+	for g, f := range nodeGetters(p) {
+		if f == flagField {
+			getName = g
+		}
+	}
+	nextGetter := ""
+	for g, f := range nodeGetters(p) {
+		if types.Identical(bst.Field(f).Type(), p.Roles.NodeIface) {
+			nextGetter = g
+		}
+	}
+	if setName == "" || getName == "" || nextGetter == "" {
+		r.InfraFail("anchor unresolved: value-group flag setter/getter or next getter (%q, %q, %q)", setName, getName, nextGetter)
+		return r
+	}
+	// the summarising pass: walks a chain through the next getter and calls the flag setter
+	sfam := map[*ssa.Function]bool{}
+	for _, fn := range p.Funcs {
+		if fn.Blocks == nil || !p.ParsePhase[fn] || p.FuncIsGenerated(fn) {
+			continue
+		}
+		walks, sets, reads := false, false, false
+		for _, l := range cfgutil.Loops(fn) {
+			for _, ins := range l.Header.Instrs {
+				ph, ok := ins.(*ssa.Phi)
+				if !ok || !types.Identical(ph.Type(), p.Roles.NodeIface) {
+					continue
+				}
+				for i, e := range ph.Edges {
+					if l.Blocks[l.Header.Preds[i]] {
+						if call, ok := e.(*ssa.Call); ok && call.Call.IsInvoke() && call.Call.Method.Name() == nextGetter && call.Call.Value == ssa.Value(ph) {
+							walks = true
+						}
+					}
+				}
+				for _, ref := range *ph.Referrers() {
+					if call, ok := ref.(*ssa.Call); ok && call.Call.IsInvoke() && call.Call.Method.Name() == getName && call.Call.Value == ssa.Value(ph) {
+						reads = true
+					}
+				}
+			}
+		}
+		for _, b := range fn.Blocks {
+			for _, ins := range b.Instrs {
+				if call, ok := ins.(*ssa.Call); ok && call.Call.IsInvoke() && call.Call.Method.Name() == setName {
+					sets = true
+				}
+			}
+		}
+		if walks && sets && reads {
+			sfam[fn] = true
+		}
+	}
+	if len(sfam) == 0 {
+		r.Oblige(false)
+		r.Violation("summarising pass", "-", "no function walks a chain and raises the head's %s flag when some step has it", bst.Field(flagField).Name())
+		return r
+	}
+	// wrappers: functions that call a member of the family with one of their own values
+	for changed := true; changed; {
+		changed = false
+		for _, fn := range p.Funcs {
+			if fn.Blocks == nil || sfam[fn] || !p.ParsePhase[fn] || p.FuncIsGenerated(fn) || len(fn.Blocks) != 1 {
+				continue
+			}
+			for _, ins := range fn.Blocks[0].Instrs {
+				if call, ok := ins.(*ssa.Call); ok && call.Call.StaticCallee() != nil && sfam[call.Call.StaticCallee()] {
+					sfam[fn] = true
+					changed = true
+				}
+			}
+		}
+	}
+	// consulted head fields: receiver of the flag getter is a load of field F of *T
+	type hf struct {
+		T *types.Named
+		f int
+	}
+	consulted := map[hf]string{}
+	for _, fn := range p.Funcs {
+		if fn.Blocks == nil || sfam[fn] {
+			continue
+		}
+		for _, b := range fn.Blocks {
+			for _, ins := range b.Instrs {
+				call, ok := ins.(*ssa.Call)
+				if !ok || !call.Call.IsInvoke() || call.Call.Method.Name() != getName {
+					continue
+				}
+				if ld, ok := call.Call.Value.(*ssa.UnOp); ok {
+					if fa, ok := ld.X.(*ssa.FieldAddr); ok {
+						if pt, ok := fa.X.Type().(*types.Pointer); ok {
+							if nt, ok := pt.Elem().(*types.Named); ok && !types.Identical(nt, p.Roles.BasicNode) {
+								consulted[hf{nt, fa.Field}] = load.FuncName(fn)
+							}
+						}
+					}
+				}
+			}
+		}
+	}
+	if len(consulted) == 0 {
+		r.InfraFail("anchor unresolved: no place consults the flag of a stored chain head")
+		return r
+	}
+	// stores into consulted fields
+	for _, fn := range p.Funcs {
+		if fn.Blocks == nil || !p.ParsePhase[fn] {
+			continue
+		}
+		n := 0
+		for _, b := range fn.Blocks {
+			for _, ins := range b.Instrs {
+				st, ok := ins.(*ssa.Store)
+				if !ok {
+					continue
+				}
+				fa, ok := st.Addr.(*ssa.FieldAddr)
+				if !ok {
+					continue
+				}
+				pt, ok := fa.X.Type().(*types.Pointer)
+				if !ok {
+					continue
+				}
+				nt, ok := pt.Elem().(*types.Named)
+				if !ok {
+					continue
+				}
+				where, isC := consulted[hf{nt, fa.Field}]
+				if !isC {
+					continue
+				}
+				n++
+				r.Instances++
+				v := st.Val
+				how := ""
+				switch x := v.(type) {
+				case *ssa.Parameter:
+					how = "the builder's argument (a completed chain handed in by the caller)"
+				case *ssa.Call:
+					how = "the result of " + describeCall(x)
+				default:
+					// a chain head assembled in this function: the pass must have run on it before
+					for _, bb := range fn.Blocks {
+						for _, y := range bb.Instrs {
+							call, ok := y.(*ssa.Call)
+							if !ok || call.Call.StaticCallee() == nil || !sfam[call.Call.StaticCallee()] {
+								continue
+							}
+							for _, a := range call.Call.Args {
+								if a == v && instrBefore(call, st) {
+									how = "summarised by " + call.Call.StaticCallee().Name() + " just before"
+								}
+							}
+						}
+					}
+				}
+				r.Oblige(how != "")
+				r.Sample("%s stores a chain head into %s: %s", load.FuncName(fn), fieldName(nt, fa.Field), map[bool]string{true: how, false: "NOT summarised"}[how != ""])
+				if how == "" {
+					r.Violation(fmt.Sprintf("%s attaches an unsummarised chain head to %s", load.FuncName(fn), fieldName(nt, fa.Field)), p.RelPos(st.Pos()),
+						"%s stores the head of a chain it has just linked into %s without summarising the %s flag over that chain; %s later asks the head whether the chain is a value group: a chain such as `$.a.*` is then taken for single-valued and only its first array is handed to the function", load.FuncName(fn), fieldName(nt, fa.Field), bst.Field(flagField).Name(), where)
+				}
+			}
+		}
+	}
+	// every completed chain on the value stack is summarised: the chain builder's calls are followed by the pass
+	var builders []*ssa.Function
+	for _, fn := range p.Funcs {
+		if fn.Blocks == nil || !p.ParsePhase[fn] || p.FuncIsGenerated(fn) {
+			continue
+		}
+		for _, b := range fn.Blocks {
+			for _, ins := range b.Instrs {
+				if st, ok := ins.(*ssa.Store); ok {
+					if fa, ok := st.Addr.(*ssa.FieldAddr); ok {
+						if pt, ok := fa.X.Type().(*types.Pointer); ok {
+							if nt, ok := pt.Elem().(*types.Named); ok {
+								if _, isC := consulted[hf{nt, fa.Field}]; isC {
+									if _, isPrm := st.Val.(*ssa.Parameter); !isPrm {
+										if _, isCall := st.Val.(*ssa.Call); !isCall {
+											builders = append(builders, fn)
+										}
+									}
+								}
+							}
+						}
+					}
+				}
+			}
+		}
+	}
+	for _, fn := range p.Funcs {
+		if fn.Blocks == nil || !p.ParsePhase[fn] {
+			continue
+		}
+		for _, b := range fn.Blocks {
+			for i, ins := range b.Instrs {
+				call, ok := ins.(*ssa.Call)
+				if !ok || call.Call.StaticCallee() == nil {
+					continue
+				}
+				isB := false
+				for _, bf := range builders {
+					if call.Call.StaticCallee() == bf {
+						isB = true
+					}
+				}
+				if !isB {
+					continue
+				}
+				r.Instances++
+				followed := false
+				for _, y := range b.Instrs[i+1:] {
+					if c2, ok := y.(*ssa.Call); ok && c2.Call.StaticCallee() != nil && sfam[c2.Call.StaticCallee()] {
+						followed = true
+					}
+				}
+				r.Oblige(followed)
+				r.Sample("%s: chain builder call followed by the summarising pass: %v", load.FuncName(fn), followed)
+				if !followed {
+					r.Violation("chain built in "+load.FuncName(fn)+" is not summarised", p.RelPos(call.Pos()),
+						"%s builds a chain with %s but does not run the pass that summarises the %s flag onto its head afterwards", load.FuncName(fn), call.Call.StaticCallee().Name(), bst.Field(flagField).Name())
+				}
+			}
+		}
+	}
+	return r
 }
